@@ -418,3 +418,150 @@ Proof.
       destruct (IH _ _ _ _ _ _ _ _ _ _ _ N A) as [o I].
       exists o. simpl. apply in_or_app. right. exact I.
 Qed.
+
+(** commit-reveal binding: if the hash function separates (salt, rate string, validator) triples,
+    the Prevote message that backs an accepted vote committed to exactly the revealed salt, the
+    exact rate string, and the voting validator — a commitment copied from another validator or
+    made for a textually different rate string never backs a vote *)
+Definition H_injective_fn (H : nat -> nat -> nat -> nat) : Prop :=
+  forall s r v s' r' v', H s r v = H s' r' v' -> s = s' /\ r = r' /\ v = v'.
+
+Lemma commit_reveal_binding H s0 all j o :
+  H_injective_fn H -> (forall v, prevotes s0 v = None) ->
+  In (j, o) (consumed H 0 s0 all) ->
+  forall hk f' v' salt' rates' w hex_ok,
+    nth_error all o = Some (hk, Prevote f' v' (H salt' rates' w) hex_ok) ->
+    w = v' /\ exists hj f tuples, nth_error all j = Some (hj, Vote f v' salt' rates' tuples true true).
+Proof.
+  intros Inj E I hk f' v' salt' rates' w hex N.
+  destruct (vote_backed_by_prevote H s0 all j o E I)
+    as (hj & f & v & salt & rates & t & hk2 & f2 & hex2 & Nj & No & _ & _).
+  rewrite N in No. inversion No; subst.
+  match goal with X : H _ _ _ = H _ _ _ |- _ => apply Inj in X; destruct X as (-> & -> & ->) end.
+  split; auto. eauto.
+Qed.
+
+(* ------------------------------------------------------------------ feeder exclusivity *)
+
+Lemma feeder_ok_iff s f v : feeder_ok s f v = true <-> f = v \/ feeders s v = Some f.
+Proof.
+  unfold feeder_ok. rewrite orb_true_iff, Nat.eqb_eq.
+  destruct (feeders s v) as [d|].
+  - rewrite Nat.eqb_eq. split; intros [A|A]; auto; right; congruence.
+  - split; intros [A|A]; auto; discriminate.
+Qed.
+
+Lemma delegate_sets H n s h v d :
+  accepted (fst (step H n s h (Delegate v d))) = true ->
+  feeders (snd (step H n s h (Delegate v d))) v = Some d.
+Proof.
+  unfold step. destruct (status s v); simpl; try discriminate; intros _; unfold upd; rewrite Nat.eqb_refl; reflexivity.
+Qed.
+
+Lemma delegate_accepted_iff H n s h v d :
+  accepted (fst (step H n s h (Delegate v d))) = true <-> status s v <> NoVal.
+Proof.
+  unfold step. destruct (status s v); simpl; split; congruence.
+Qed.
+
+Lemma feeders_kept_unless_delegate H n s h m v :
+  (forall d, m <> Delegate v d) -> feeders (snd (step H n s h m)) v = feeders s v.
+Proof.
+  intro ND.
+  destruct m as [f x hash hex_ok|f x salt rates tuples parses wl|op d|sd nvp|x st| |]; unfold step; simpl.
+  - destruct (is_nil _); reflexivity.
+  - destruct (is_nil _); reflexivity.
+  - destruct (status s op); simpl; auto; unfold upd;
+      (destruct (Nat.eqb_spec v op) as [->|N]; [exfalso; apply (ND d); reflexivity|reflexivity]).
+  - destruct sd; simpl; auto. destruct (nvp =? 0)%Z; reflexivity.
+  - reflexivity.
+  - destruct (is_period_last (vp s) h); reflexivity.
+  - reflexivity.
+Qed.
+
+(** once [v] delegates to [d'], every later prevote / vote for [v] signed by anybody other than
+    [v] itself or [d'] is refused, until [v] delegates again — in particular a former delegate is
+    refused from the next message on *)
+Lemma only_current_delegate H evs : forall n s v d',
+  feeders s v = Some d' ->
+  (forall h d, ~ In (h, Delegate v d) evs) ->
+  Forall2 (fun e r => forall f, signer_of (snd e) = Some (f, v) -> f <> v -> f <> d' ->
+                                accepted (fst r) = false) evs (run H n s evs).
+Proof.
+  induction evs as [|[h m] r IH]; intros n s v d' F ND; simpl; [constructor|].
+  destruct (step H n s h m) as [o s1] eqn:St.
+  constructor.
+  - simpl. intros f Sg N1 N2.
+    destruct (accepted o) eqn:A; auto. exfalso.
+    assert (A' : accepted (fst (step H n s h m)) = true) by (rewrite St; exact A).
+    destruct (accepted_signer_authorised H n s h m f v Sg A') as [[X|X] _]; [contradiction|].
+    rewrite F in X. inversion X. contradiction.
+  - apply IH.
+    + replace s1 with (snd (step H n s h m)) by (rewrite St; reflexivity).
+      rewrite feeders_kept_unless_delegate; auto.
+      intros d E. apply (ND h d). left. rewrite E. reflexivity.
+    + intros h' d I. apply (ND h' d). right. exact I.
+Qed.
+
+(* ------------------------------------------------------------------ ranges (reachable states) *)
+
+Definition ev_ok (e : event) : Prop :=
+  (0 <= fst e < two63)%Z /\
+  match snd e with EditParams _ nvp => (0 <= nvp)%Z | _ => True end.
+
+Definition ranges (s : state) : Prop :=
+  (0 < vp s)%Z /\ forall v p, prevotes s v = Some p -> (0 <= p_submit p < two63)%Z.
+
+Lemma vp_step H n s h m :
+  vp (snd (step H n s h m)) = vp s \/
+  exists sd nvp, m = EditParams sd nvp /\ (nvp <> 0)%Z /\ vp (snd (step H n s h m)) = nvp.
+Proof.
+  destruct m as [f x hash hex_ok|f x salt rates tuples parses wl|op d|sd nvp|x st| |]; unfold step; simpl.
+  - destruct (is_nil _); auto.
+  - destruct (is_nil _); auto.
+  - destruct (status s op); auto.
+  - destruct sd; simpl; auto. destruct (Z.eqb_spec nvp 0); simpl; auto.
+    right. exists true, nvp. auto.
+  - auto.
+  - destruct (is_period_last (vp s) h); auto.
+  - auto.
+Qed.
+
+Lemma ranges_step H n s h m : ev_ok (h, m) -> ranges s -> ranges (snd (step H n s h m)).
+Proof.
+  intros [Rh Rm] [V Sb]. simpl in Rh, Rm. split.
+  - destruct (vp_step H n s h m) as [E|(sd & nvp & -> & NZ & E)]; rewrite E; auto. lia.
+  - intros v p E. apply step_prevotes in E as [E|(f & hash & hex & _ & ->)]; eauto.
+    simpl. rewrite to_u64_small; auto.
+Qed.
+
+Lemma ranges_final H evs : forall n s, Forall ev_ok evs -> ranges s -> ranges (final H n s evs).
+Proof.
+  induction evs as [|[h m] r IH]; intros n s F R; simpl; auto.
+  inversion F; subst. apply IH; auto. apply ranges_step; auto.
+Qed.
+
+(** the headline equivalence with the reveal window as plain integer arithmetic *)
+Lemma vote_accepted_iff_arith H n s h f v salt rates tuples parses wl :
+  ranges s -> (0 <= h < two63)%Z ->
+  (accepted (fst (step H n s h (Vote f v salt rates tuples parses wl))) = true <->
+   (f = v \/ feeders s v = Some f) /\ status s v = Bonded /\
+   (exists p, prevotes s v = Some p /\ (h / vp s - p_submit p / vp s = 1)%Z /\
+              p_hash p = H salt rates v) /\
+   parses = true /\ wl = true).
+Proof.
+  intros [V Sb] Rh. rewrite vote_accepted_iff, feeder_ok_iff.
+  split; intros (F & B & (p & E & Pd & Hh) & Pa & W); repeat split; auto; exists p; repeat split; auto.
+  - apply period_ok_spec in Pd; eauto.
+  - apply period_ok_spec; eauto.
+Qed.
+
+(** … and as "the current height lies in the vote period that follows the prevote's period" *)
+Lemma vote_accepted_window H n s h f v salt rates tuples parses wl p :
+  ranges s -> (0 <= h < two63)%Z -> prevotes s v = Some p ->
+  accepted (fst (step H n s h (Vote f v salt rates tuples parses wl))) = true ->
+  ((p_submit p / vp s + 1) * vp s <= h < (p_submit p / vp s + 2) * vp s)%Z.
+Proof.
+  intros [V Sb] Rh E A. apply vote_accepted_iff in A as (_ & _ & (q & E' & Pd & _) & _).
+  rewrite E in E'. inversion E'; subst q. apply period_ok_window in Pd; eauto.
+Qed.
